@@ -3,6 +3,9 @@ import SuxModel.RankSel.Spec
 import SuxModel.RankSel.Layer
 import SuxModel.RankSel.Rank9.Model
 import SuxModel.RankSel.RankSmall.Model
+import SuxModel.RankSel.Select9.Model
+import SuxModel.RankSel.Small.Model
+import SuxModel.RankSel.Adapt.Model
 /-!
 # Protocol runner `ranksel` (C01, C02, C12)
 
@@ -54,7 +57,13 @@ def modelOf (ws : Array Nat) (len n1 : Nat) (k : LayerKind) : Option LayerModel 
   match k with
   | .r9 => some (Rank9.layer ws len n1)
   | .rs k => some (RankSmall.layer ws len n1 k)
-  | _ => none
+  | .s9 => some (Select9.layer ws len n1)
+  | .ss k b => some (Small.layer ws len n1 k b)
+  | .szs k b => some (Small.layerZero ws len n1 k b)
+  | .sa how p1 p2 => some (Adapt.layerRun false how p1 p2 ws len n1)
+  | .sza how p1 p2 => some (Adapt.layerRun true how p1 p2 ws len n1)
+  | .sac l m => some (Adapt.layerConst false l m ws len n1)
+  | .szac l m => some (Adapt.layerConst true l m ws len n1)
 
 structure RSt where
   len : Nat := 0
